@@ -523,6 +523,10 @@ impl Scenario for IoSim {
                     Box::new(HyperEnd(TokioIo::new(a))),
                     Box::new(SniffEnd { pending: Some(Box::pin(hyperdriver::verif_hooks::verif_read_version(TokioIo::new(b)))), inner: None }),
                 ),
+                Stack::BraidPlain if case.server_writes => (
+                    Box::new(TokioEnd(hyperdriver::server::conn::Stream::new(a))),
+                    Box::new(TokioEnd(hyperdriver::client::conn::Stream::new(b))),
+                ),
                 Stack::BraidPlain => (
                     Box::new(TokioEnd(hyperdriver::client::conn::Stream::new(a))),
                     Box::new(TokioEnd(hyperdriver::server::conn::Stream::new(b))),
@@ -556,7 +560,11 @@ impl Scenario for IoSim {
                     let s = s.expect("duplex accept");
                     let cs: hyperdriver::client::conn::Stream = c.into();
                     let ss: hyperdriver::server::conn::Stream = s.into();
-                    (Box::new(TokioEnd(cs)), Box::new(TokioEnd(ss)))
+                    if case.server_writes {
+                        (Box::new(TokioEnd(ss)), Box::new(TokioEnd(cs)))
+                    } else {
+                        (Box::new(TokioEnd(cs)), Box::new(TokioEnd(ss)))
+                    }
                 }
             };
             // the reverse transfer must never block on pipe space (both sides write before they read)
